@@ -29,16 +29,18 @@ def gen_cases(ctx):
     rng = ctx.rng
     cases = []
     for _ in range(ctx.n(14, 200)):
-        kind = rng.choice([None, None, "spider", "chain", "star"])
-        n = rng.choice([3, 4, 5, 6]) if kind else rng.choice([2, 3, 4, 5])
+        kind = rng.choice([None, "spider", "chain", "star", "bush", "bush", "twig"])
+        n = rng.choice([4, 5, 6]) if kind else rng.choice([2, 3, 4, 5])
+        if kind == "twig":
+            n = rng.choice([6, 7])
         cases.append({"kind": "notrunc", "par": gen.random_parent_array(rng, n, kind),
-                      "seed": rng.randrange(10 ** 9), "steps": 2})
+                      "seed": rng.randrange(10 ** 9), "steps": 3})
     for _ in range(ctx.n(14, 200)):
         kind = rng.choice([None, "spider", "chain"])
         n = rng.choice([3, 4, 5, 6]) if kind else rng.choice([2, 3, 4, 5])
         svd = dict(max_bond_dim=rng.choice([1, 2, 3, float("inf")]),
-                   rel_tol=rng.choice([float("-inf"), 0.0, 1e-3, 0.3]),
-                   total_tol=rng.choice([float("-inf"), 0.0, 1e-3, 0.2]),
+                   rel_tol=rng.choice([float("-inf"), 0.0, 1e-3, 0.3, 1.0]),
+                   total_tol=rng.choice([float("-inf"), 0.0, 1e-3, 0.2, 1e3]),
                    renorm=rng.random() < 0.3, sum_trunc=rng.random() < 0.3, sum_renorm=rng.random() < 0.5)
         cases.append({"kind": "trunc", "par": gen.random_parent_array(rng, n, kind),
                       "seed": rng.randrange(10 ** 9), "steps": 2, "svd": svd})
